@@ -64,6 +64,10 @@ def compare(chk, r, o):
                 elif e["kind"] != r["v"]:
                     chk.drift.append({"path": r["s"], "error_kind_real": e["kind"], "spec": r["v"]})
         return
+    if r["rec"] == "oddschema":
+        if o["result"] == "ok" and bytes(o["schema"]["value"]) != b"1.2":
+            chk.violation("manifest accepted with schema %r: whenever a manifest is accepted the schema is '1.2'" % bytes(o["schema"]["value"]).decode("latin1"), rep)
+        return
     if r["rec"] == "odd":
         if o["result"] == "ok":
             chk.violation("a manifest whose contents node is no list of strings (explicit tag contradicting the node kind) is accepted, contents %s"
@@ -143,6 +147,8 @@ def run(pid, tier):
             raise Infra("GivenOK violated in spec/ModFile.tla:\n" + giv.tail[-1500:])
         odd = run_tlc("ModFile", CFG % dict(base, mode="Odd", inv="OddOK"), sc, cache=True)
         replay_records(chk, binary, sc, odd.records, "odd")
+        odds = run_tlc("ModFile", CFG % dict(base, mode="OddSchema", inv="OddSchemaOK"), sc, cache=True)
+        replay_records(chk, binary, sc, odds.records, "oddschema")
         log("TLC: paths %d states (%.0fs), manifests %d states (%.0fs), given %d (%.0fs)" % (paths.distinct, paths.wall, man.distinct, man.wall, giv.distinct, giv.wall))
         replay_records(chk, binary, sc, paths.records, "paths")
         replay_records(chk, binary, sc, man.records, "man")
